@@ -14,4 +14,5 @@ MODULES = {
     "C12": "harness.c12_events",
     "C13": "harness.c13_deviceseq",
     "C14": "harness.c14_colour",
+    "C19": "harness.c19_deframe",
 }
